@@ -90,6 +90,7 @@ static ec_backend_t backend_instance_get_by_desc_locked(int desc)
 {
     struct ec_backend *b = NULL;
     SLIST_FOREACH(b, &active_instances, link) {
+        LIBEC_VERIF_YIELD(LIBEC_VP_LOOKUP_STEP);
         if (b->idesc == desc)
             break;
     }
@@ -128,6 +129,7 @@ int liberasurecode_backend_alloc_desc(void)
         if (next_backend_desc >= INT_MAX || next_backend_desc < 0)
             next_backend_desc = 0;
         ++next_backend_desc;
+        LIBEC_VERIF_YIELD(LIBEC_VP_ALLOC_DESC);
         if (!backend_instance_get_by_desc_locked(next_backend_desc))
             return next_backend_desc;
     }
@@ -148,10 +150,12 @@ int liberasurecode_backend_instance_register(ec_backend_t instance)
     rc = rwlock_wrlock(&active_instances_rwlock);
     if (rc == 0) {
         SLIST_INSERT_HEAD(&active_instances, instance, link);
+        LIBEC_VERIF_YIELD(LIBEC_VP_REG_INSERTED);
         desc = liberasurecode_backend_alloc_desc();
         if (desc <= 0)
             goto register_out;
         instance->idesc = desc;
+        LIBEC_VERIF_YIELD(LIBEC_VP_REG_DESC_SET);
     } else {
         goto exit;
     }
@@ -338,6 +342,7 @@ int liberasurecode_instance_create(const ec_backend_id_t id,
     /* Register instance and return a descriptor/instance id
      * (register stores it in instance->idesc while holding the lock; the
      * instance is visible to other threads from then on, do not write it) */
+    LIBEC_VERIF_YIELD(LIBEC_VP_CREATE_PRE_REGISTER);
     return liberasurecode_backend_instance_register(instance);
 }
 
@@ -354,15 +359,18 @@ int liberasurecode_instance_destroy(int desc)
     instance = liberasurecode_backend_instance_get_by_desc(desc);
     if (NULL == instance)
         return -EBACKENDNOTAVAIL;
+    LIBEC_VERIF_YIELD(LIBEC_VP_DESTROY_POST_LOOKUP);
 
     /* Call private exit() for the backend */
     instance->common.ops->exit(instance->desc.backend_desc);
+    LIBEC_VERIF_YIELD(LIBEC_VP_DESTROY_POST_EXIT);
 
     /* dlclose() backend library */
     liberasurecode_backend_close(instance);
 
     /* Remove instance from registry */
     rc = liberasurecode_backend_instance_unregister(instance);
+    LIBEC_VERIF_YIELD(LIBEC_VP_UNREG_DONE);
     if (rc == 0) {
         free(instance);
     }
